@@ -207,7 +207,7 @@ def tlc(module, cfg=None, workers=1, env=None, timeout=1800, deque=False, xss="1
         coverage=False, simulate=None, depth=None, metaname=None, extra=(), cwd=SPEC, seed_=None):
     """Run TLC on spec/<module>.tla. Returns TlcResult. Raises ToolError on timeout."""
     meta = workdir("tlc_" + (metaname or module) + "_" + str(os.getpid()))
-    cmd = ["java", "-XX:+UseParallelGC", "-Xss" + xss, "-Xmx" + xmx]
+    cmd = ["java", "-XX:+UseParallelGC", "-Xss" + xss, "-Xmx" + xmx, "-Djava.io.tmpdir=" + meta]     # TLC unpacks its modules into a temp dir: keep it out of /tmp
     if deque:
         cmd.append("-Dtlc2.tool.queue.IStateQueue=StateDeque")
     cmd += ["-cp", TLA_CP, "tlc2.TLC", "-workers", str(workers), "-metadir", meta, "-cleanup",
